@@ -23,9 +23,9 @@ ASSUMPTIONS = [
     "value restoration is judged by the C01 oracle (strict, or fixpoint at ambiguous unions), so the same two union findings apply",
 ]
 PLAN = {"quick": dict(programs=2000, values=5, depth=3), "thorough": dict(programs=40000, values=10, depth=5)}
-FLOORS = {"quick": {"subclass_instance_values": 300, "json_validity_checked": 25000, "entrypoint_agreements": 25000, "coder_call_checks": 15000, "bytes_types_checked": 300, "types_given_by_reference": 3000,
+FLOORS = {"quick": {"carrier_documents_decoded": 20000, "subclass_instance_values": 300, "json_validity_checked": 25000, "entrypoint_agreements": 25000, "coder_call_checks": 15000, "bytes_types_checked": 300, "types_given_by_reference": 3000,
                     "bytes_types_wrapped_checked": 300, "bytes_type_forms": 40, "passthrough_roots_checked": 2500},
-          "thorough": {"subclass_instance_values": 10000, "json_validity_checked": 900000, "entrypoint_agreements": 900000, "coder_call_checks": 500000, "bytes_types_checked": 10000, "types_given_by_reference": 100000,
+          "thorough": {"carrier_documents_decoded": 700000, "subclass_instance_values": 10000, "json_validity_checked": 900000, "entrypoint_agreements": 900000, "coder_call_checks": 500000, "bytes_types_checked": 10000, "types_given_by_reference": 100000,
                        "bytes_types_wrapped_checked": 10000, "bytes_type_forms": 60, "passthrough_roots_checked": 50000}}
 
 
@@ -47,7 +47,7 @@ class Coder:
         if self.kind == "tag":
             assert bytes(b[:4]) == b"TAG:"
             b = b[4:]
-        return json.loads(b)
+        return json.loads(bytes(b) if isinstance(b, memoryview) else b)
 
     def reset(self):
         self.enc_calls.clear()
@@ -195,6 +195,28 @@ def one_value(sh, spec, v, prog, rng, coders, judge=True):
         if not (same(u1, u2, strict=True) and same(u1, plain_u, strict=True)):
             sh.violation("entrypoints-disagree-value", detail=f"codec={short(u1, 120)} api={short(u2, 120)} composed={short(plain_u, 120)}", **rec)
             continue
+        # the same document in another bytes-like carrier - also as a window into a larger buffer (a payload behind a frame header,
+        # one of several documents in one buffer): every entry point reads exactly the bytes the carrier exposes
+        pre, post = rng.choice([b"\x00\x00\x00*", b"12", b"[1] ", bytes(b1)[:7], b"TAG:"]), rng.choice([b"", b"]", b" 3", bytes(b1)[-5:]])
+        ck = rng.choice(["bytearray", "memoryview", "window", "window"])
+        doc = {"bytearray": lambda: bytearray(b1), "memoryview": lambda: memoryview(bytes(b1)),
+               "window": lambda: memoryview(pre + bytes(b1) + post)[len(pre):len(pre) + len(b1)]}[ck]
+        try:
+            with quiet():
+                if cfg == "default":
+                    uc1, uc2 = cdc.decode(doc()), typelib.decode(Tcodec, doc())
+                else:
+                    co.reset()
+                    uc1 = cdc.decode(doc())
+                    seen = [bytes(x) for x in co.dec_calls]
+                    uc2 = typelib.decode(Tcodec, doc(), decoder=co.decode)
+                    if seen != [bytes(b1)]:
+                        sh.violation("decoder-wiring", detail=f"carrier {ck}: decoder saw {short(seen, 160)} for the document {short(bytes(b1), 80)}", **rec)
+            sh.count("carrier_documents_decoded")
+            if not (same(uc1, u1, strict=True) and same(uc2, u1, strict=True)):
+                sh.violation("entrypoints-disagree-value", detail=f"document as {ck}: codec={short(uc1, 120)} api={short(uc2, 120)} from bytes={short(u1, 120)}", **rec)
+        except Exception as e:  # noqa: BLE001
+            sh.violation("entrypoint-raised", exc=type(e).__name__, detail=f"document as {ck}: {e}"[:300], **rec)
         # restoration (C01 rule) - judged once per value on the codec result
         if cfg == "default" and judge:
             if not c01.judge(sh, spec, v, u1, tsrc) and sh.violations:
